@@ -259,9 +259,10 @@ func genBX(t *rapid.T, depth int, label string) BX {
 // ---- strict functions ---------------------------------------------------------------------------
 
 type c11Strict struct {
-	Fn   string   `json:"fn"`
-	Args []gen.JV `json:"args"`  // non-NULL sample arguments (they select the overload through their types)
-	Null []bool   `json:"nulls"` // which positions are replaced by NULL at run time
+	Fn       string   `json:"fn"`
+	Args     []gen.JV `json:"args"`               // non-NULL sample arguments (they select the overload through their types)
+	Null     []bool   `json:"nulls"`              // which positions are replaced by NULL at run time
+	Nullable []bool   `json:"nullable,omitempty"` // which positions have a nullable STATIC type (nil = all); NULL only occurs there
 }
 
 func sampleFor(t octosql.Type, variant int) (gen.JV, bool) {
@@ -337,16 +338,26 @@ func strictCases() []c11Strict {
 			}
 		}
 	}
-	// expand with every non-empty NULL mask and the all-present mask
+	// expand with every static nullability mask (which arguments have a nullable static type) and, within it, every
+	// run-time NULL mask: the typechecker only plans NULL checks for statically nullable arguments, so mixed masks matter
 	var full []c11Strict
 	for _, c := range out {
 		n := len(c.Args)
-		for mask := 0; mask < 1<<n; mask++ {
-			nulls := make([]bool, n)
-			for i := range nulls {
-				nulls[i] = mask&(1<<i) != 0
+		for smask := 1; smask < 1<<n; smask++ {
+			nullable := make([]bool, n)
+			for i := range nullable {
+				nullable[i] = smask&(1<<i) != 0
 			}
-			full = append(full, c11Strict{Fn: c.Fn, Args: c.Args, Null: nulls})
+			for mask := 0; mask < 1<<n; mask++ {
+				if mask&^smask != 0 {
+					continue // NULL only where the static type admits it
+				}
+				nulls := make([]bool, n)
+				for i := range nulls {
+					nulls[i] = mask&(1<<i) != 0
+				}
+				full = append(full, c11Strict{Fn: c.Fn, Args: c.Args, Null: nulls, Nullable: nullable})
+			}
 		}
 	}
 	return full
@@ -362,7 +373,10 @@ func c11StrictProp(c c11Strict) ev.Outcome {
 	anyNull := false
 	for i, a := range c.Args {
 		v := a.Oct()
-		static[i] = nullableOf(v.Type())
+		static[i] = v.Type()
+		if c.Nullable == nil || c.Nullable[i] {
+			static[i] = nullableOf(v.Type())
+		}
 		values[i] = v
 		if c.Null[i] {
 			values[i] = octosql.NewNull()
@@ -420,7 +434,7 @@ func c11IsNullProp(c c11IsNull) ev.Outcome {
 func TestC11(t *testing.T) {
 	r := ev.New("C11", "exploration",
 		"kleene_exhaustive: every AND/OR/NOT tree of depth<=2 over leaves {a,b,c,TRUE,FALSE,NULL} evaluated through the real SQL pipeline (optimised and not) on all 27 assignments of {TRUE,FALSE,NULL}^3, both as a SELECT item and as a WHERE predicate; "+
-			"kleene_random: rapid trees of depth<=4 with 2-3-ary AND/OR; strict_functions: every Strict descriptor of functions.FunctionMap() reached through the real typechecker with nullable static argument types and every NULL mask; "+
+			"kleene_random: rapid trees of depth<=4 with 2-3-ary AND/OR; strict_functions: every Strict descriptor of functions.FunctionMap() reached through the real typechecker with every combination of nullable / non-nullable static argument types and, within it, every run-time NULL mask; "+
 			"is_null: IS [NOT] NULL on values of every kind with exact/nullable/Any static type. non-trivial: tree mentions a column (so NULL operands occur) / mask has a NULL / always for is_null. distinct = canonical case JSON",
 		"NOT applied directly to the NULL literal is rejected by the typechecker (not(NULL) has no overload): counted as discarded, it is a rejection, not a wrong value")
 	ev.Enumerate(t, r, "kleene_exhaustive", func(yield func(c11Expr) bool) {
